@@ -135,9 +135,9 @@ func sizesFor(n int, emptyMask int) []int {
 }
 
 // TestExhaustiveHistories: every arrival permutation x every subset of empty
-// batches x every writer x gzip x closefile, up to 4 (quick) / 5 (thorough) batches.
+// batches x every writer x gzip x closefile, up to 5 (quick) / 6 (thorough) batches.
 func TestExhaustiveHistories(t *testing.T) {
-	maxN := evid.Pick(4, 5)
+	maxN := evid.Pick(5, 6)
 	shard, ns := evid.Shard(), evid.NShards()
 	idx := 0
 	for n := 0; n <= maxN; n++ {
@@ -160,7 +160,7 @@ func TestExhaustiveHistories(t *testing.T) {
 // TestExhaustivePermutations: every arrival permutation for the next two batch
 // counts, with no empty batch, the even batches empty, the odd batches empty.
 func TestExhaustivePermutations(t *testing.T) {
-	loN, hiN := evid.Pick(5, 6), evid.Pick(6, 7)
+	loN, hiN := evid.Pick(6, 7), evid.Pick(6, 8)
 	shard, ns := evid.Shard(), evid.NShards()
 	idx := 0
 	for n := loN; n <= hiN; n++ {
